@@ -24,7 +24,8 @@ Inductive cop := OHas | OIn | OEq.   (* attribute value contains literal / liter
 
 Inductive tcond : Type :=
 | TCmp (ex : bool) (k : cop) (p : path) (v : val)   (* Comparator between node p and a Literal; ex: wrapped in exists(attr, .) *)
-| THas (p : path) (T : cls).                         (* HasType(p, T) *)
+| THas (p : path) (T : cls)                          (* HasType(p, T) *)
+| TVar (k : cop) (p : path) (v : val).               (* Comparator between node p and a let-variable with domain v *)
 
 Definition is_some {A} (o : option A) : bool := match o with Some _ => true | None => false end.
 Definition is_anil (l : alist) : bool := match l with ANil => true | _ => false end.
@@ -51,6 +52,16 @@ Section Translate.
     | KInAttrVal => TCmp e OIn pa v
     | KContainsValFlat => TCmp e OIn (PFlat pa) v
     | KEq => TCmp e OEq pa v
+    end.
+
+  (* the value is a variable (CanBehaveLikeAVariable, not a Match): never wrapped in exists; is_iterable_value is
+     Variable._is_iterable_ = "has a (non-empty) domain" *)
+  Definition infer_var (ai vi : bool) (pa : path) (v : val) : tcond :=
+    match infer_kind ai vi false false with
+    | KContainsAttrVal => TVar OHas pa v
+    | KInAttrVal => TVar OIn pa v
+    | KContainsValFlat => TVar OIn (PFlat pa) v
+    | KEq => TVar OEq pa v
     end.
 
   (* AttributeAssignment.resolve up to the nested conditions: the node the nested match is resolved on,
@@ -93,7 +104,38 @@ Section Translate.
     | PMatch q => tr_pat oc p a q
     | PAny v => tr_vals oc p a v false true
     | PAll v => tr_vals oc p a v true false
+    | PVar v => if unresolved false true then [] else [infer_var (f_iter C oc a) (truthy v) (PAttr p a) v]
+    | PSel c' => tr_apat oc p a c'          (* Select is a Match: the conditions are the same *)
     end.
+
+  (* Match._resolve / _update_fields / _update_selected_variables: the expressions selected by the keywords, in the
+     order in which they are appended (a node is appended once).  For a keyword written with select...: the Attribute
+     node itself (`_update_selected_variables(attr_assignment.attr)`), then -- when the nested match is resolved on the
+     Flatten node above it -- that node (`_update_fields`: is_selected), then what the nested keywords select. *)
+  Fixpoint sels_pat (s : bool) (oc : cls) (p : path) (a : nat) (q : pat) {struct q} : list path :=
+    match q with
+    | Pat t l =>
+        let pv := nested_var oc p a t (negb (is_anil l)) in
+        (if s then PAttr p a :: (match pv with PFlat _ => [pv] | _ => [] end) else [])
+        ++ sels_alist (dflt (f_type C oc a)) pv l
+    end
+  with sels_alist (oc : cls) (p : path) (l : alist) {struct l} : list path :=
+    match l with
+    | ANil => []
+    | ACons a c rest => sels_apat false oc p a c ++ sels_alist oc p rest
+    end
+  with sels_apat (s : bool) (oc : cls) (p : path) (a : nat) (c : apat) {struct c} : list path :=
+    match c with
+    | PMatch q => sels_pat s oc p a q
+    | PAny _ | PAll _ => if s then [PAttr p a] else []
+    | PSel c' => sels_apat true oc p a c'
+    | PLit _ | PVar _ => []
+    end.
+  (* Match.expression: the root variable first if it was written with entity_selection; the root variable alone if
+     nothing is selected *)
+  Definition sels_root (rootsel : bool) (T : cls) (l : alist) : list path :=
+    let inner := sels_alist T PRoot l in
+    if rootsel then PRoot :: inner else match inner with [] => [PRoot] | _ => inner end.
 End Translate.
 
 (* ------------------------------------------------------------------ evaluation *)
@@ -161,6 +203,17 @@ Section Eval.
         let rs := map (fun r : env * val => (fst r, negb (cmp k (snd r) v))) (eval_path p e) in
         if ex then exists_scan (exists_keys p) [] rs else rs
     | THas p T => map (fun r : env * val => (fst r, negb (isinst (snd r) T))) (eval_path p e)
+    | TVar _ _ _ => []       (* only the exception such a comparison raises is modelled: see [raises1] *)
+    end.
+
+  (* Comparator.apply_operation on (node value, a value x of the let-variable's domain): `value in x` raises TypeError
+     when x is not a container -- which is the case for every domain of objects or ints *)
+  Definition cmp_raises (k : cop) (x : val) : bool :=
+    match k with OIn => negb (is_coll x) | OHas => false | OEq => false end.
+  Definition raises1 (c : tcond) (e : env) : bool :=
+    match c with
+    | TVar k p v => match eval_path p e with [] => false | _ => existsb (cmp_raises k) (elems v) end
+    | _ => false
     end.
 
   (* and_(c1, ..., cn) = AND(AND(c1, c2), ...): a false result is passed up without evaluating the right side *)
@@ -182,8 +235,31 @@ Section Eval.
     flat_map (fun r : env * val => match snd r with VO o => [o] | _ => [] end) (eval_path PRoot e).
 
   Definition run_conds (cs : list tcond) : list Z := flat_map select_root (true_envs cs).
+
+  (* evaluate_selected_variables (since 32abf51): lazy nested loops, every selected expression evaluated under the
+     bindings the ones before it produced; a row is the list of their values *)
+  Fixpoint sel_rows (sels : list path) (e : env) : list (list val) :=
+    match sels with
+    | [] => [[]]
+    | s :: rest => flat_map (fun r : env * val => map (cons (snd r)) (sel_rows rest (fst r))) (eval_path s e)
+    end.
+  Definition run_rows_conds (sels : list path) (cs : list tcond) : list (list val) :=
+    flat_map (sel_rows sels) (true_envs cs).
+
+  (* does evaluating the conditions (all results are consumed) raise TypeError *)
+  Fixpoint raises_all (cs : list tcond) (e : env) : bool :=
+    match cs with
+    | [] => false
+    | c :: cs' =>
+        raises1 c e || existsb (raises_all cs') (map fst (filter (fun r : res => negb (snd r)) (eval c e)))
+    end.
 End Eval.
 
 (* an(entity_matching(T, domain)(a1 = .., ..)).evaluate(): let(T, domain) keeps the instances of T *)
 Definition run (C : cmodel) (M : mworld) (T : cls) (l : alist) (dom : list Z) : list Z :=
   run_conds C M (filter (fun o => sub C (otype M o) T) dom) (tr_alist C T PRoot l).
+(* an(entity_matching / entity_selection (T, domain)(a1 = .., ..)).evaluate() as rows of the selected expressions *)
+Definition run_rows (C : cmodel) (M : mworld) (rootsel : bool) (T : cls) (l : alist) (dom : list Z) : list (list val) :=
+  run_rows_conds C M (filter (fun o => sub C (otype M o) T) dom) (sels_root C rootsel T l) (tr_alist C T PRoot l).
+Definition run_raises (C : cmodel) (M : mworld) (T : cls) (l : alist) (dom : list Z) : bool :=
+  raises_all C M (filter (fun o => sub C (otype M o) T) dom) (tr_alist C T PRoot l) [].
